@@ -2635,7 +2635,11 @@ class CaseExpr(ColExpr):
             val_ftypes.add(self.default_val.ftype(agg_is_window=agg_is_window))
 
         for cond, val in self.cases:
-            cond.ftype(agg_is_window=agg_is_window)
+            # a window / aggregate function in a condition makes the whole expression one
+            if cond.dtype() is not None and not types.is_const(cond.dtype()):
+                val_ftypes.add(cond.ftype(agg_is_window=agg_is_window))
+            else:
+                cond.ftype(agg_is_window=agg_is_window)
             if val.dtype() is not None and not types.is_const(val.dtype()):
                 val_ftypes.add(val.ftype(agg_is_window=agg_is_window))
 
